@@ -21,6 +21,7 @@ import (
 type c01Client struct {
 	V    int       `json:"v"`
 	Subs []subSpec `json:"subs"`
+	RM   int       `json:"receive_max,omitempty"` // v5: Receive Maximum declared in CONNECT (0 = absent)
 }
 
 type c01Pub struct {
@@ -49,6 +50,9 @@ func genC01(t *rapid.T) c01Scen {
 	nc := rapid.IntRange(1, 5).Draw(t, "nclients")
 	for i := 0; i < nc; i++ {
 		c := c01Client{V: rapid.SampledFrom([]int{4, 5, 5}).Draw(t, "v")}
+		if c.V == 5 {
+			c.RM = rapid.SampledFrom([]int{0, 0, 0, 1, 2, 5}).Draw(t, "rm")
+		}
 		ns := rapid.IntRange(0, 4).Draw(t, "nsubs")
 		for j := 0; j < ns; j++ {
 			sp := genSubSpec(t, false)
@@ -198,7 +202,13 @@ func runC01(s c01Scen, c *ev.Case) *ev.Violation {
 	clients := make([]*fixture.Client, len(s.Clients))
 	subs := make([]map[string]subSpec, len(s.Clients))
 	for i, cs := range s.Clients {
-		cl, ack, err := b.Connect(fixture.ConnectOpts{ID: clientName(i), V: ver(cs.V), CleanStart: true, AutoAck: true})
+		co := fixture.ConnectOpts{ID: clientName(i), V: ver(cs.V), CleanStart: true, AutoAck: true}
+		if cs.V == 5 && cs.RM > 0 {
+			// a small in-flight window: the broker has to wait for acknowledgements before it sends the next message
+			co.Props = &mw.Props{ReceiveMax: u16p(uint16(cs.RM))}
+			c.Label("small_receive_maximum")
+		}
+		cl, ack, err := b.Connect(co)
 		if err != nil || ack == nil || ack.ReasonCode != 0 {
 			return ev.Violf("C01.connect", "client %d: CONNECT failed: %v %v", i, ack, err)
 		}
